@@ -24,6 +24,9 @@ def dump (db : DB) : String :=
   let acc := addrs.map fun a => s!"{b2s (db.accA a)}/{"".intercalate (keys.map fun k => b2s (db.accS a k))}"
   s!"cache[{" ".intercalate cache}] keeper[{" ".intercalate keep}] refund={db.refund} logs={db.logs} acc[{" ".intercalate acc}] supply={db.k.supply}"
 
+/-- the harness looks at every account after these operations (Exist / GetBalance / …): the objects get cached -/
+def loadAll (db : DB) : DB := addrs.foldl (fun d a => d.load a) db
+
 def nat2 (a b : String) (f : Nat → Nat → DB) (st : St) : St × String :=
   match a.toNat?, b.toNat? with
   | some a, some b => ({ db := f a b }, "ok")
@@ -39,6 +42,10 @@ def step (st : St) : List String → St × String
     | none => (st, "bad-op")
   | ["addbal", a, x] => nat2 a x (addBalance st.db) st
   | ["subbal", a, x] => nat2 a x (subBalance st.db) st
+  | ["xfer", a, b, x] =>
+    match a.toNat?, b.toNat?, x.toNat? with
+    | some a, some b, some x => ({ db := addBalance (subBalance st.db a x) b x }, "ok")
+    | _, _, _ => (st, "bad-op")
   | ["setnonce", a, v] => nat2 a v (setNonce st.db) st
   | ["setstate", a, k, v] =>
     match a.toNat?, k.toNat?, v.toNat? with
@@ -53,22 +60,40 @@ def step (st : St) : List String → St × String
   | ["suicide", a] => (match a.toNat? with | some a => ({ db := suicide st.db a }, "ok") | none => (st, "bad-op"))
   | ["accaddr", a] => (match a.toNat? with | some a => ({ db := addAddressToAccessList st.db a }, "ok") | none => (st, "bad-op"))
   | ["accslot", a, k] => nat2 a k (addSlotToAccessList st.db) st
-  | ["snap"] => let r := snapshot st.db; ({ db := r.1 }, s!"id={r.2}")
+  | ["snap"] => let r := snapshot st.db; ({ db := loadAll r.1 }, s!"id={r.2}")
   | ["revert", id] =>
     match id.toNat? with
-    | some id => (match revertTo st.db id with | some db => ({ db := db }, "ok") | none => (st, "panic"))
+    | some id => (match revertTo st.db id with | some db => ({ db := loadAll db }, "ok") | none => (st, "panic"))
     | none => (st, "bad-op")
-  | ["commit"] => ({ db := commit st.db addrs keys }, "ok")
+  | ["commit"] => ({ db := loadAll (commit st.db addrs keys) }, "ok")
+  | ["selfdestruct", a, b, x] =>
+    -- SELFDESTRUCT: the beneficiary is paid the balance (filled in by the executor), then Suicide
+    match a.toNat?, b.toNat?, x.toNat? with
+    | some a, some b, some x => ({ db := suicide (addBalance st.db b x) a }, "ok")
+    | _, _, _ => (st, "bad-op")
   | ["bank", a, sign, x] =>
     -- a Cosmos-side balance change made behind the StateDB's back (what a precompile's message does): coins
     -- move between the account and an address outside the universe, the supply does not change
     match a.toNat?, x.toNat? with
     | some a, some x =>
+      if x = 0 then (st, "ok") else
       let k := st.db.k
       let nb := if sign == "+" then k.bal a + x else k.bal a - x
       ({ db := { st.db with k := { k with bal := upd k.bal a nb, exist := upd k.exist a true } } }, "ok")
     | _, _ => (st, "bad-op")
-  | ["dump"] => (st, dump st.db)
+  | ["bankm", a, sign, x] =>
+    -- a precompile's bank movement of its caller followed by the mirroring AddBalance / SubBalance
+    match a.toNat?, x.toNat? with
+    | some a, some x =>
+      if x = 0 then (st, "ok") else
+      let k := st.db.k
+      let nb := if sign == "+" then k.bal a + x else k.bal a - x
+      let db1 : DB := { st.db with k := { k with bal := upd k.bal a nb, exist := upd k.exist a true } }
+      ({ db := if sign == "+" then addBalance db1 a x else subBalance db1 a x }, "ok")
+    | _, _ => (st, "bad-op")
+  | "ptx" :: _ => (st, "skip")
+  | ["noop"] => (st, "ok")
+  | ["dump"] => ({ db := loadAll st.db }, dump st.db)
   | _ => (st, "bad-op")
 
 end Haqq.Driver.C05
